@@ -104,5 +104,5 @@ Example C11_nonvacuous_1 :
 Proof. vm_compute. repeat split. Qed.
 Example C11_nonvacuous_2 :
   length (filter (accepted jfixed) all_cfgs) = 720%nat
-  /\ length (filter dies_current all_cfgs) = 222%nat.
+  /\ length (filter dies_current all_cfgs) = 258%nat.
 Proof. vm_compute. split; reflexivity. Qed.
